@@ -213,6 +213,17 @@ class World(Sim):
                 self.excluded += 1
                 return None
             self.flags.append('uncommitted-update1-job-scheduled')
+        if u['update_id'] != 1 and not u['committed'] and not getattr(self, '_in_submit', False):
+            # known finding: a child inserted by a not-yet-committed later update is made Ready when its parent completes
+            abs_parents = {v for k in range(lo, hi) for kd, v in u['jobs'][k]['parents'] if kd == 'abs'}
+            if abs_parents:
+                live = self.q('SELECT job_id FROM jobs WHERE batch_id = %s AND state NOT IN (\'Success\', \'Failed\', \'Error\', \'Cancelled\')',
+                              (u['batch_id'],))
+                if abs_parents & {x['job_id'] for x in live}:
+                    if 'uncommitted-child-made-ready-by-parent-completion' in self.guards:
+                        self.excluded += 1
+                        return None
+                    self.flags.append('uncommitted-child-made-ready-by-parent-completion')
         specs = [self._job_spec(u, k) for k in range(lo, hi)]
         r = await self._guard(self.m.fe._create_jobs(self.userdata(u['batch']['user']), specs, u['batch_id'], u['update_id'], self.app))
         if r['ok'] and not resend:
@@ -243,15 +254,19 @@ class World(Sim):
         if r is None or not r.get('ok') or len(self.updates) == n0:
             return r
         ui = len(self.updates) - 1
-        if groups:
-            r = await self.op_groups(ui)
-            if not r.get('ok'):
-                return r
-        if jobs:
-            r = await self.op_jobs(ui)
-            if not r.get('ok'):
-                return r
-        return await self.op_commit(ui)
+        self._in_submit = True
+        try:
+            if groups:
+                r = await self.op_groups(ui)
+                if r is None or not r.get('ok'):
+                    return r
+            if jobs:
+                r = await self.op_jobs(ui)
+                if r is None or not r.get('ok'):
+                    return r
+            return await self.op_commit(ui)
+        finally:
+            self._in_submit = False
 
     async def op_cancel(self, batch_i, group_ref=0):
         b = self._pick(self.batches, batch_i)
